@@ -54,19 +54,6 @@ pub enum TieClass {
     Distinct,
 }
 
-pub fn tie_class(scores: &[f64]) -> TieClass {
-    let mut s = scores.to_vec();
-    s.sort_by(|a, b| a.partial_cmp(b).unwrap());
-    if s.first() == s.last() && s.len() > 1 {
-        return TieClass::Constant;
-    }
-    if s.windows(2).any(|w| w[0] == w[1]) {
-        TieClass::Tied
-    } else {
-        TieClass::Distinct
-    }
-}
-
 /// Tie class plus "some two DISTINCT scores are closer than `eps`" (round 2: nearly-equal / tiny
 /// scores, which the definition ranks as distinct however close they are).
 pub fn tie_info(scores: &[f64], eps: f64) -> (TieClass, bool) {
